@@ -582,6 +582,7 @@ def align_variable_names_with_convention(
     blacklisted_names = (
         tracing.get_imported_names(ast_tree)
         | tracing.get_defined_names(ast_tree)
+        | {node.id for node in core.walk(ast_tree, ast.Name)}  # names from elsewhere, e.g. a star import
         | constants.BUILTIN_FUNCTIONS
         | constants.PYTHON_KEYWORDS
     )
